@@ -342,7 +342,8 @@ def project_coverage(prop, tier, stats, nruns, other, samples, pstats, wall, kno
         "workers": pstats.get("workers"),
         "runs_under_python_O": pstats.get("optimized_runs", 0),
         "tasks_skipped_by_budget": pstats.get("skipped"),
-        "real_components": ["doctrans (all modules)", "black", "ast", "argparse", "meta.asttools.cmp_ast", "tmpfs files"],
+        "real_components": ["doctrans (all modules)", "black", "ast", "argparse", "meta.asttools.cmp_ast", "tmpfs files",
+                            "C10 only: freshly started interpreters (own PYTHONHASHSEED) for every sync of 5% of the histories, see reach_probes"],
         "simulated_components": ["OS process boundary", "file objects (proxy)", "Ctrl-C / MemoryError (raised from the step seam)", "SIGKILL (I/O freeze + buffer loss)",
                                  "ENOSPC/EIO/EACCES (raised by the seam)", "the user/editor (scripted environment actions)"],
         "exhaustive": False,
